@@ -154,6 +154,78 @@ def e2e(ctx, exe):
     return failures
 
 
+# =============================================================================== calibration-table histories
+def histories(ctx, exe):
+    """End to end over histories of the calibration table (calcore.gen_history): several calibrations stored under
+    names, some deleted, setups calibrated again with another error network and stored under the same (or an absent)
+    name; every live calibration is then applied through every index the application holds for it."""
+    import random
+    n = 24 if ctx.tier == "quick" else 240
+    hs = [calcore.gen_history(random.Random(ctx.rng.getrandbits(64))) for _ in range(n)]
+
+    def run(h, noise=None):
+        text = calcore.history_script(h, noise).text()
+        return (text,) + calcore.run_script(ctx, exe, text)
+    with concurrent.futures.ThreadPoolExecutor(max_workers=min(8, vplib.NPROC)) as ex:
+        results = list(ex.map(run, hs))
+    failures = []
+    used = skipped = 0
+    worst = 0.0
+    nold = nholes = 0
+    for i, (h, (text, rc, out, err)) in enumerate(zip(hs, results)):
+        ctx.count()
+        if rc != 0:
+            sig = vplib.asan_signature(err) or {"kind": "fault", "error": "exit %d" % rc, "function": None}
+            failures.append((sig, "calibration harness stopped on a calibration-table history: %s" % (
+                (err.strip().split("\n") or [""])[0][:200]), h, text, err))
+            continue
+        recs = calcore.parse_output(out)
+        problems, w = calcore.judge_history(h, recs)
+        if problems:
+            numeric = all(p[0] == "apply-mismatch" for p in problems)
+            if numeric:
+                # ill-conditioned draw?  1e-12 relative perturbation of every measured value
+                t2, rc2, out2, err2 = run(h, random.Random(4321 + i))
+                sens = calcore.outputs_differ(recs, calcore.parse_output(out2)) if rc2 == 0 else 0.0
+                if sens > 1e-9:
+                    skipped += 1
+                    continue
+            cls, detail = problems[0]
+            failures.append(({"kind": "e2e-history", "class": cls}, "calibration-table history [%s]: %s" % (
+                "; ".join(calcore.describe_history(h)[:-len(h.final) or None]), detail), h, text, ""))
+            continue
+        used += 1
+        worst = max(worst, w)
+        ctx.nontrivial.add(("history", i))
+        names = [op[1] for op in h.ops if op[0] == "add"]
+        nold += len([1 for nm, sc, ref in h.final if ref != "r%d" % max(op[3] for op in h.ops if op[0] == "add" and op[1] == nm)])
+        seen_del = False
+        for op in h.ops:
+            if op[0] == "del":
+                seen_del = True
+            elif seen_del and names.count(op[1]) > 1:
+                nholes += 1
+                break
+    ctx.traces_validated += used
+    ctx.extra["history_scenarios"] = n
+    ctx.extra["history_used"] = used
+    ctx.extra["history_skipped_ill_conditioned"] = skipped
+    ctx.extra["history_applies_through_an_earlier_index"] = nold
+    ctx.extra["history_re-adds_after_a_delete"] = nholes
+    ctx.extra["history_worst_apply_rel_error"] = worst
+    ok = not failures and skipped <= n // 5 and used > 0
+    ctx.obligation("tie:e2e calibration-table histories (add, delete, re-add under the same name, apply through old and new index)",
+                   ok, failures[0][1][:400] if failures else ("" if ok else "%d of %d draws ill-conditioned" % (skipped, n)))
+    seen = set()
+    for sig, what, h, text, err in failures:
+        k = tuple(sorted((a, str(b)) for a, b in sig.items()))
+        if k in seen:
+            continue
+        seen.add(k)
+        ctx.violation(sig, what, {"history": calcore.describe_history(h), "script": text[:200000],
+                                  "how": "harness/calcore_e2e.c < script (ASan/UBSan build)", "stderr": err[-3000:]})
+
+
 # =============================================================================== directed cases
 def directed(ctx, exe):
     """D14 / D15 regressions and a memory ledger: alloc .. add .. free returns every block."""
@@ -451,6 +523,8 @@ COQ_FILES = ["Gen/LayoutGen.v", "Cal/LayoutProofs.v", "Cal/TermsModel.v", "Cal/A
              "Cal/ApplyProofs.v", "Cal/SolveProofs.v", "Cal/E12Proofs.v", "Cal/LeakProofs.v", "Cal/SolveUnique.v",
              "Cal/ApplyIdentity.v", "Cal/AssembleIdentity.v", "Cal/LinUnique.v", "Cal/ApplyRecovers.v",
              "Cal/SolveRecovers.v", "Cal/EndToEnd.v", "Cal/AssembleList.v",
+             "Cal/LeakPhysical.v", "Cal/LeakPhysicalEx.v", "Cal/FillLoops.v", "Cal/FillLoopsProofs.v",
+             "Cal/FillLoopsRecovers.v", "Cal/EndToEndLeak.v", "Cal/EndToEndLeakEx.v",
              "Properties_C01.v"]
 
 
@@ -491,6 +565,9 @@ def numeric(ctx):
     quick = ctx.tier == "quick"
     calcore_num.apply_tie(ctx, 6 if quick else 60)
     calcore_num.solve_tie(ctx, 96 if quick else 1200)
+    # leakage pass of _vnacal_new_solve_start_frequency (samples, vnlt_sum, vnlt_count, vnmm_m_matrix, saved terms)
+    # against SolveSimple.leak_acc / leak_mean / m_adjusted / leak_terms (ocaml/drv_calcore3), exact
+    calcore_num.leak_tie(ctx, 40 if quick else 400)
 
 
 # =============================================================================== main
@@ -519,6 +596,7 @@ def run(ctx):
                 "extracted model; distinct non-trivial = scenarios that were accepted, solved and compared")
     exe = ctx.build_harness("calcore_e2e", san=True, wrap=True, defines=["CALCORE_WRAP"])
     e2e(ctx, exe)
+    histories(ctx, exe)
     directed(ctx, exe)
     layout_part(ctx)
     structural(ctx, exe)
